@@ -6,7 +6,7 @@ from .. import env, coq, runner, tables
 
 LEVEL = 'proof'
 META = dict(
-    text='Coq theorems over a hand-written symplectic model of CliffordTableau (rules in the shape of the code): every regenerated rule table (apply_x/y/z/h/cz/cx/_swap over all effective exponents and local patterns, g, _rowsum) equals the model; each local rule is conjugation by the documented gate matrix (generic commutative ring with i, 1/2, 1/sqrt2, any global shift), lifted to n qubits and to whole circuits (every tableau row is U P U^dagger; stabilizers stabilize the evolved state); the 24 single-qubit Cliffords form the group their matrices form; the padded tableau of a multi-qubit CliffordGate object is the tableau of its circuit placed on the chosen axes in the order given (any k, n, axes); kron / reindex of the CH form permute and multiply amplitudes (exact, small n).  On every run the model is evaluated by vm_compute against the implementation after every gate and measurement branch of random Clifford circuits, and spec-level oracles on the real code compare stabilizers, CH-form amplitudes (with phase), measurement probabilities of every branch and the CliffordGate group laws with numpy matrices.',
+    text='Coq theorems over a hand-written symplectic model of CliffordTableau (rules in the shape of the code): every regenerated rule table (apply_x/y/z/h/cz/cx/_swap over all effective exponents and local patterns, g, _rowsum) equals the model; each local rule is conjugation by the documented gate matrix (generic commutative ring with i, 1/2, 1/sqrt2, any global shift), lifted to n qubits and to whole circuits (every tableau row is U P U^dagger; stabilizers stabilize the evolved state); the 24 single-qubit Cliffords form the group their matrices form; the padded tableau of a multi-qubit CliffordGate object is the tableau of its circuit placed on the chosen axes in the order given (any k, n, axes); kron / reindex of the CH form permute and multiply amplitudes (exact, small n).  On every run the model is evaluated by vm_compute against the implementation after every gate and measurement branch of random Clifford circuits, and spec-level oracles on the real code compare stabilizers, CH-form amplitudes (with phase), measurement probabilities of every branch and the CliffordGate group laws with numpy matrices; run / sample with 2 and 3 repetitions are enumerated over every script of random bits and the joint distribution of the repetitions must be the product of the Born distribution of one execution (copies of a stabilizer state, also copy(deep_copy_buffers=False), are states of their own).',
     note='Trusted: Coq kernel; docstring matrices in coq/Gates/GateSpecs.v; vf/tables_c13.py (exhaustive evaluation of the rules, fail closed); the Python adapters and the numpy reference simulation in vf/checks/c13.py (cirq.unitary of each gate, tensordot, projectors). _measure, then and inverse are modelled and compared exactly but proved only in part (see DESIGN C13); the CH form (with kron / reindex) is compared with the reference state vector and proved only for short circuits on <= 3 qubits.',
     technique='Rocq/Coq proof over regenerated rule tables + vm_compute correspondence + exact branch enumeration with a scripted seed object',
 )
@@ -322,6 +322,9 @@ def describe_ops(ops, limit=420):
     """Compact text of a generated circuit for the `what:` line of a violation."""
     out = []
     for op in ops:
+        if op['kind'] == 'c':        # an operation controlled by the record of the measurement at index src
+            out.append(describe_ops([op['op']]) + f'?k{op["src"]}')
+            continue
         ax = ','.join(str(a) for a in op['axes'])
         if op['kind'] in ('m', 'r'):
             out.append(('M' if op['kind'] == 'm' else 'Reset') + f'({ax})')
@@ -391,7 +394,7 @@ def act_on_measure(cirq, ts, qubits, q, key):
     mop = cirq.measure(qubits[q], key=key)
 
     def run(bit):
-        c = ts.copy()
+        c = ts.copy(deep_copy_buffers=bool(bit))      # (either kind of copy must be a state of its own: walk checks ts afterwards)
         c._prng = Script([bit])
         cirq.act_on(mop, c)
         return c.tableau, measured_bit(c, key), c.prng.pos, c
@@ -404,7 +407,7 @@ def chform_measure_probability(cirq, cs, qubits, q, key, want_out=None):
     nv = int(np.sum(cs.state.v))
     hits, chosen, script = 0, None, None
     for bits in itertools.product([0, 1], repeat=nv):
-        cc = cs.copy()
+        cc = cs.copy(deep_copy_buffers=bool(sum(bits) % 2))
         cc._prng = Script(bits)
         cirq.act_on(mop, cc)
         if cc.prng.pos != nv:
@@ -439,6 +442,17 @@ def walk(ctx, cirq, case, report=True):
             fails.append((kind, label, f'CH-form state_vector differs from the reference (max diff {np.max(np.abs(sv - psi)):.3g})'))
         ctx.count('state_oracle', [case['id'], len(steps)], True)
 
+    def unchanged(snap, what):
+        # a copy (also one that shares scratch buffers, deep_copy_buffers=False) is a state of its own
+        st, sc, bt, bsv = snap
+        if tab_lit(st.tableau) != bt:
+            fails.append(('copy-independence', 'tableau', f'CliffordTableauSimulationState: {what} changed the rows of the other tableau (copy(deep_copy_buffers=False))'))
+        sv = sc.state.state_vector()
+        if not np.allclose(sv, bsv, atol=ATOL):
+            fails.append(('copy-independence', 'chform', f'StabilizerChFormSimulationState: {what} changed the state of the other one (copy(deep_copy_buffers=False)): '
+                          f'its state vector was {cirq.dirac_notation(bsv)}, now it is {cirq.dirac_notation(sv)}'))
+        ctx.count('copy_independence', [case['id'], fails.k], True)
+
     for k, op in enumerate(ops):
         fails.k = k
         if op['kind'] in ('g', 'd'):
@@ -446,8 +460,10 @@ def walk(ctx, cirq, case, report=True):
             label = op.get('fam') or op['name']
             if op['kind'] == 'g':
                 label += ':' + str(op.get('q4', 0) % 8)
+            snap = (ts.copy(deep_copy_buffers=False), cs.copy(deep_copy_buffers=False), tab_lit(ts.tableau), cs.state.state_vector())
             cirq.act_on(o, ts)
             cirq.act_on(o, cs)
+            unchanged(snap, 'applying ' + describe_ops([op]) + ' to the state it was copied from')
             u = cirq.unitary(o)
             psi = ref_apply(psi, u, [qubits.index(q) for q in o.qubits], n) if o.qubits else psi * complex(u.reshape(-1)[0])
             if op['kind'] == 'd' and op['name'] == 'CGN':
@@ -489,6 +505,7 @@ def walk(ctx, cirq, case, report=True):
             q = op['axes'][0]
             key = f'm{k}'
             p1 = float(np.sum(np.abs(psi.reshape((2,) * n).take(1, axis=q)) ** 2))
+            snap = (ts, cs, tab_lit(ts.tableau), cs.state.state_vector())
             if case.get('probe'):        # every other qubit is measured on copies of the same pre-state first
                 for pq in range(n):
                     if pq != q:
@@ -507,6 +524,7 @@ def walk(ctx, cirq, case, report=True):
             if abs(pch - p1) > ATOL:
                 fails.append(('measure-prob', 'chform', f'CH-form measurement of qubit {q}: P(1) = {pch:.6f} over all {2 ** nv} scripts, Born P(1) = {p1:.6f}'))
             ctx.count('measure_branch', [case['id'], key, 'c'], nv > 0)
+            unchanged(snap, f'measuring qubit {q} (and probing the others) on copies')
             ts = c
             ts._prng = Script()
             newpsi = project(psi, q, out, n)
@@ -1146,9 +1164,16 @@ def born_records(cirq, n, ops):
     """Exact outcome distribution and collapsed final states of the reference simulation: {record: (prob, psi)}."""
     qubits = cirq.LineQubit.range(n)
     branches = [((), 1.0, np.eye(2 ** n, dtype=complex)[:, 0])]
-    for op in ops:
+    for k, op in enumerate(ops):
         new = []
-        if op['kind'] == 'm':
+        if op['kind'] == 'c':        # applied in the branches whose record of measurement `src` has a 1
+            o = make_operation(cirq, op['op'], qubits)
+            u = np.asarray(cirq.unitary(o))
+            pos = sum(1 for x in ops[:op['src']] if x['kind'] == 'm')
+            assert ops[op['src']]['kind'] == 'm' and op['src'] < k
+            for rec, p, psi in branches:
+                new.append((rec, p, ref_apply(psi, u, [qubits.index(q) for q in o.qubits], n) if any(rec[pos]) else psi))
+        elif op['kind'] == 'm':
             for rec, p, psi in branches:
                 outs = [(rec, p, psi, ())]
                 for q in op['axes']:
@@ -1177,6 +1202,8 @@ def e2e_circuit(cirq, n, ops):
         if op['kind'] == 'm':
             out.append(cirq.measure(*[qubits[a] for a in op['axes']], key=f'k{k}'))
             keys.append(f'k{k}')
+        elif op['kind'] == 'c':
+            out.append(make_operation(cirq, op['op'], qubits).with_classical_controls(f'k{op["src"]}'))
         else:
             out.append(make_operation(cirq, op, qubits))
     return cirq.Circuit(out), keys, qubits
@@ -1310,6 +1337,183 @@ def e2e_case(ctx, cirq, case, cap=160):
                               dict(kind='e2e', case=case))
     ctx.count('e2e_circuit', repr(case), True, sample=dict(n=n, circuit=str(circuit).splitlines()[:4], outcomes=len(want)))
     return True
+
+
+# ------------------------------------------------------------------ several repetitions: every one starts from the same state
+REPS_ENTRIES = {
+    'CliffordSimulator.run': lambda cirq, s: cirq.CliffordSimulator(seed=s),
+    'CliffordSimulator(split_untangled_states=True).run': lambda cirq, s: cirq.CliffordSimulator(seed=s, split_untangled_states=True),
+    'StabilizerSampler.run': lambda cirq, s: cirq.StabilizerSampler(seed=s),
+    'CliffordSimulator.sample': lambda cirq, s: cirq.CliffordSimulator(seed=s),
+}
+
+
+def reps_case(ctx, cirq, case, cap=400, entries=None, must=False):
+    """run / sample with repetitions = case['reps'] >= 2 under EVERY script of random bits: the joint distribution of the
+    records of the repetitions must be the product of the Born distribution of one execution of the circuit (every
+    repetition starts from the same state and is independent of the others).  Returns None if a run has more than `cap`
+    scripts (with must=True that is an error: the fixed cases are chosen small)."""
+    n, ops, reps = case['n'], case['ops'], case['reps']
+    circuit, keys, qubits = e2e_circuit(cirq, n, ops)
+    want = {rec: p for rec, (p, _) in born_records(cirq, n, ops).items()}
+    widths = [len(o['axes']) for o in ops if o['kind'] == 'm']
+    terminal = not any(o['kind'] != 'm' for o in ops[min(k for k, o in enumerate(ops) if o['kind'] == 'm'):])
+    results = {}
+    for name in entries or REPS_ENTRIES:
+        mk = REPS_ENTRIES[name]
+
+        def run(s, name=name, mk=mk):
+            try:
+                return run_(s, name, mk)
+            except Unsupported:
+                raise
+            except Exception as e:       # a valid circuit: the entry point has no reason to raise
+                return ('error', f'{type(e).__name__}: {e}'[:160])
+
+        def run_(s, name, mk):
+            if name.endswith('.sample'):
+                df = mk(cirq, s).sample(circuit, repetitions=reps)
+                if len(df) != reps:
+                    return ('shape', len(df))
+                return tuple(tuple(tuple((int(df[k][i]) >> (w - 1 - j)) & 1 for j in range(w)) for k, w in zip(keys, widths)) for i in range(reps))
+            r = mk(cirq, s).run(circuit, repetitions=reps)
+            for k, w in zip(keys, widths):
+                if np.asarray(r.measurements[k]).shape != (reps, w):
+                    return ('shape', np.asarray(r.measurements[k]).shape)
+            return tuple(tuple(tuple(int(b) for b in r.measurements[k][i]) for k in keys) for i in range(reps))
+
+        leaves = dfs_scripts(run, cap)
+        if leaves is None:
+            if must:
+                ctx.mark_broken('reps:enumeration', f'{name}(repetitions={reps}) draws more than {cap} scripts of random bits on the fixed circuit {describe_ops(ops)}')
+            return None
+        results[name] = leaves
+    text = f'n={n} circuit: {describe_ops(ops)}'
+    for name, leaves in results.items():
+        call = f'{name}(repetitions={reps})'
+        dist = {}
+        for p, joint in leaves:
+            dist[joint] = dist.get(joint, 0.0) + p
+        ctx.count('reps_branch', [name, repr(case)], len(leaves) > 1)
+        bad = None
+        for joint in sorted(dist):
+            if joint and joint[0] == 'shape':
+                bad = ('shape', f'{call}: the result has shape {joint[1]} for a measurement, expected {reps} repetitions')
+                break
+            if joint and joint[0] == 'error':
+                bad = ('error', f'{call} raises {joint[1]} (with probability {dist[joint]:.6f} over all scripts)')
+                break
+        # 1. no repetition may show a record that has Born probability 0 in one execution
+        for joint in sorted(dist) if bad is None else []:
+            for i, rec in enumerate(joint):
+                if want.get(rec, 0.0) < ATOL and dist[joint] > ATOL and bad is None:
+                    bad = ('impossible-record', f'{call}: repetition {i} yields the record {rec} (keys {keys}) with probability {dist[joint]:.6f} over all scripts '
+                           f'(joint outcome {joint}), but one execution of the circuit has Born probability 0 for it')
+        # 2. every repetition by itself is Born distributed
+        if bad is None:
+            for i in range(reps):
+                marg = {}
+                for joint, p in dist.items():
+                    marg[joint[i]] = marg.get(joint[i], 0.0) + p
+                for rec in sorted(set(marg) | set(want)):
+                    if abs(marg.get(rec, 0.0) - want.get(rec, 0.0)) > ATOL and bad is None:
+                        bad = ('marginal', f'{call}: repetition {i} yields the record {rec} with probability {marg.get(rec, 0.0):.6f} over all scripts, Born probability {want.get(rec, 0.0):.6f}')
+        # 3. the repetitions are independent: the joint distribution is the product
+        if bad is None:
+            for joint in sorted(set(dist) | set(itertools.product(sorted(want), repeat=reps))):
+                exp = float(np.prod([want.get(rec, 0.0) for rec in joint]))
+                if abs(dist.get(joint, 0.0) - exp) > ATOL and bad is None:
+                    bad = ('dependent', f'{call}: the records {joint} of the repetitions have joint probability {dist.get(joint, 0.0):.6f} over all scripts, '
+                           f'the product of their Born probabilities is {exp:.6f} (repetitions are not independent)')
+        if bad is not None:
+            ctx.violation(f'reps:{bad[0]}:{name}', f'{bad[1]}; {text}', dict(kind='reps', case=case))
+    ctx.count('reps_circuit', repr(case), not terminal and len(want) > 1,
+              sample=dict(n=n, repetitions=reps, circuit=describe_ops(ops), records=len(want), terminal_measurements_only=terminal))
+    return True
+
+
+def gen_reps_case(rng, reps=None, control=None):
+    """A small circuit for several repetitions: a superposing Clifford prefix, one or two NON-terminal measurements, a
+    suffix of gates that update the stabilizer state in place (H, S, CX, CZ, SWAP, X; optionally one of them controlled by a
+    measurement record), then a terminal measurement of every qubit.  One time in six all measurements are terminal."""
+    n = rng.choice([2, 2, 3])
+    two = lambda: rng.sample(range(n), 2)
+
+    def gate(basis_only=False):
+        r = rng.random()
+        if r < 0.3 and not basis_only:
+            return G('H', 4, [rng.randrange(n)])
+        if r < 0.45:
+            return G('Z', rng.choice([2, 6, 4]), [rng.randrange(n)])
+        if r < 0.75:
+            return G('CX', 4, two())
+        if r < 0.88:
+            return G('CZ', 4, two())
+        if r < 0.94:
+            return G('SWAP', 4, two())
+        return G(rng.choice('XY'), rng.choice([4, 2]), [rng.randrange(n)])
+
+    ops = [G('H', 4, [rng.randrange(n)])] + [gate() for _ in range(rng.randint(0, 3))]
+    if rng.random() >= 1 / 6:
+        mids = []
+        for _ in range(rng.choice([1, 1, 2])):
+            mids.append(len(ops))
+            ops.append(dict(kind='m', axes=[rng.randrange(n)]))
+            suffix = [gate() for _ in range(rng.randint(1, 3))]
+            if control if control is not None else rng.random() < 0.3:
+                i = rng.randrange(len(suffix))
+                suffix[i] = dict(kind='c', src=rng.choice(mids), op=suffix[i])
+            ops += suffix
+    order = list(range(n))
+    rng.shuffle(order)
+    if rng.random() < 0.5:
+        ops.append(dict(kind='m', axes=order))
+    else:
+        ops += [dict(kind='m', axes=order[:1]), dict(kind='m', axes=order[1:])]
+    return dict(n=n, ops=ops, reps=reps or rng.choice([2, 2, 3]))
+
+
+def reps_grid_cases():
+    """Independent of VERIF_SEED: on two qubits, H on a, a measured (non-terminal), EVERY single in-place gate of
+    {H, S, CX, CZ} (either direction), both qubits measured; and the same after a Bell pair."""
+    cases = []
+    for a in (0, 1):
+        b = 1 - a
+        for pre in ([G('H', 4, [a])], [G('H', 4, [a]), G('CX', 4, [a, b])]):
+            for g in [G('H', 4, [a]), G('H', 4, [b]), G('Z', 2, [a]), G('CX', 4, [a, b]), G('CX', 4, [b, a]), G('CZ', 4, [a, b])]:
+                cases.append(dict(n=2, reps=2, ops=pre + [dict(kind='m', axes=[a]), g, dict(kind='m', axes=[a, b])]))
+    return cases
+
+
+def reps_stream(ctx, cirq, fixed, count):
+    """run / sample with 2 and 3 repetitions over every script.  The grid and `fixed` generated cases do not depend on
+    VERIF_SEED and are always enumerated completely; `count` more cases come from ctx.rng (skipped beyond 400 scripts)."""
+    frng = random.Random(0xC65)
+    for case in reps_grid_cases():
+        reps_case(ctx, cirq, case, cap=20000, must=True)
+    light = [nm for nm in REPS_ENTRIES if not nm.endswith('.sample')]       # (sample = run + data frame: on every third case)
+    done = attempts = 0
+    while done < fixed and attempts < 8 * fixed:
+        attempts += 1
+        case = gen_reps_case(frng, reps=2 if attempts % 3 else 3, control=(attempts % 4 == 3))
+        if reps_case(ctx, cirq, case, cap=300, entries=None if done % 3 == 0 else light) is not None:
+            done += 1
+    if done < fixed:
+        ctx.mark_broken('reps:enumeration', f'only {done} of {fixed} fixed circuits could be enumerated within 300 scripts')
+    done = attempts = 0
+    while done < count and attempts < 8 * count:
+        attempts += 1
+        if ctx.rng.random() < 0.6:
+            case = gen_reps_case(ctx.rng)
+        else:                        # the vocabulary of the end-to-end stream, shortened
+            n = ctx.rng.choice([1, 2, 2, 3])
+            ops = []
+            for _ in range(ctx.rng.randint(2, 6)):
+                ops.append(dict(kind='m', axes=ctx.rng.sample(range(n), 1)) if ctx.rng.random() < 0.2 else draw_op(ctx.rng, n))
+            ops.append(dict(kind='m', axes=ctx.rng.sample(range(n), ctx.rng.randint(1, n))))
+            case = dict(n=n, ops=ops, reps=2)
+        if reps_case(ctx, cirq, case, cap=300, entries=None if done % 3 == 0 else light) is not None:
+            done += 1
 
 
 # ------------------------------------------------------------------ CH forms joined (kron) and reordered (reindex)
@@ -1624,7 +1828,12 @@ def run(ctx):
                 'and reordered: programs on real StabilizerChFormSimulationState objects (kronecker_product, transpose_to_qubit_order, swap, act_on) for every join order of '
                 '3 and 4 qubits and the rotations of 5 (fixed) + VERIF_SEED programs, judged after every step by the numpy Kronecker product of the sub-state vectors '
                 'transposed to canonical order, kron / reindex replayed through the model; CliffordSimulator(split_untangled_states=True) step states and final states on the '
-                'same grid for two qubit orders, and in every end-to-end case')
+                'same grid for two qubit orders, and in every end-to-end case.  Several repetitions: CliffordSimulator.run / .sample (also split_untangled_states=True) and '
+                'StabilizerSampler.run with repetitions = 2 and 3 over EVERY script of random bits on circuits with non-terminal measurements followed by in-place gates '
+                '(fixed grid: H, measure, every single gate of {H, S, CX, CZ}, measure all, also after a Bell pair; fixed generated set incl. classically controlled gates; '
+                'VERIF_SEED set) and on terminal-measurement circuits: no repetition may show a record of Born probability 0, every repetition is Born distributed and the joint '
+                'distribution is the product (non-trivial = a non-terminal measurement and more than one record).  In the walk every gate is applied to a state of which a '
+                'copy(deep_copy_buffers=False) was taken before, and measurements act on copies of both kinds: the other state must keep its tableau rows / state vector')
     ctx.assumptions += ['numpy reference simulation in vf/checks/c13.py (cirq.unitary of each gate applied by tensordot, projectors for measurement)',
                         'gate matrices transcribed in coq/Gates/GateSpecs.v', 'scripted seed object answers randint(2) only; any other request aborts the case']
     err = tables.regenerate(['TableauRules'])
@@ -1648,6 +1857,7 @@ def run(ctx):
     cgate_order_stream(ctx, cirq, 40 if quick else 600)
     oplist_stream(ctx, cirq, 30 if quick else 400)
     e2e_cgate(ctx, cirq)
+    reps_stream(ctx, cirq, 18 if quick else 60, 14 if quick else 150)
     join_stream(ctx, cirq, 40 if quick else 600)
     split_stream(ctx, cirq, 30 if quick else 400)
 
@@ -1665,6 +1875,8 @@ def replay(ctx, data):
         return not fails and not bad
     if k == 'e2e':
         e2e_case(ctx, cirq, data['case'], cap=100000)
+    elif k == 'reps':
+        reps_case(ctx, cirq, data['case'], cap=100000)
     elif k == 'int_seed':
         int_seed_stream(ctx, cirq)
     elif k == 'oplist':
